@@ -95,15 +95,12 @@ theorem serKids_tc (ll : Nat) (nsmap : List (Str × Str)) (indent pos : Nat) (ks
     simp only [pyNonBlank, Bool.false_eq_true, ↓reduceIte]
     exact ih _
 
-theorem pyNonBlank_ne_nil {t : Str} (h : pyNonBlank (some t) = true) : t ≠ [] := by
-  rintro rfl; simp [pyNonBlank] at h
-
 theorem wfElem_text {pns : List (Str × Str)} {tag nsd attrs t tail kids}
     (h : wfElem pns (.mk tag nsd attrs (some t) tail kids) = true) :
-    kids = [] ∧ pyNonBlank (some t) = true ∧ t.all xmlChar = true := by
+    kids = [] ∧ t ≠ [] ∧ t.all xmlChar = true := by
   simp only [wfElem, Bool.and_eq_true, textOk] at h
   obtain ⟨⟨⟨_, ht⟩, _⟩, _⟩ := h
-  exact ⟨by simpa using ht.1.1, ht.1.2, ht.2⟩
+  exact ⟨by simpa using ht.1.1, by simpa using ht.1.2, ht.2⟩
 
 mutual
 /-- **characters → tokens, elements**: for every line length, column and indentation the written
@@ -130,9 +127,9 @@ theorem Lexes_serElem (ll : Nat) (pns : List (Str × Str)) (hinv : NsInv pns) (i
       have hetag := Lexes_etag hname
       cases text with
       | some t =>
-        obtain ⟨hk, hnb, hx⟩ := wfElem_text hwf
+        obtain ⟨hk, hne, hx⟩ := wfElem_text hwf
         subst hk
-        have hne := pyNonBlank_ne_nil hnb
+        have hnb := textWritten_some hne
         have htxt : Lexes (writtenText t ++ '<' :: '/' :: (unmap (scope pns nsd) tag ++ ['>']))
             (.text t :: [.etag (unmap (scope pns nsd) tag)]) :=
           Lexes.text (writtenText_ne_nil t hx hne)
@@ -140,7 +137,7 @@ theorem Lexes_serElem (ll : Nat) (pns : List (Str × Str)) (hinv : NsInv pns) (i
             (writtenText_no_cdata_end t) (fun hc => (writtenText_chars t _ hc).2 rfl)
             (writtenText_reads t hx) ⟨_, rfl⟩ hetag
         have := Lexes.append hstag htxt
-        simp only [hnb, ↓reduceIte, serText_multiline t hne, serKids, List.isEmpty_nil, Bool.not_true,
+        simp only [List.isEmpty_nil, hnb, ↓reduceIte, serText_multiline t hne, serKids, Bool.not_true,
           Bool.false_and, Bool.false_eq_true, toksK, List.append_nil]
         simpa [closerStr, List.append_assoc, keysOf] using this
       | none =>
@@ -154,7 +151,7 @@ theorem Lexes_serElem (ll : Nat) (pns : List (Str × Str)) (hinv : NsInv pns) (i
             (pos + 1 + utf8Len (unmap (scope pns nsd) tag)) false).2 kids
         obtain ⟨htail, _, _⟩ := wfElem_shape hwf
         subst htail
-        simp only [pyNonBlank, Bool.false_eq_true, ↓reduceIte, htc, Bool.not_false, Bool.and_true,
+        simp only [textWritten, Bool.false_eq_true, ↓reduceIte, htc, Bool.not_false, Bool.and_true,
           List.nil_append]
         cases kids with
         | nil =>
